@@ -4,7 +4,7 @@ PROP = dict(
     gen=["TonConnectConsts"],
     # the model IS the specification here: the signed digest layout, the MAC/expiry rule of the payload, the accept/
     # reject decision and the key returned are what the property states
-    spec_ops=("tc.msg", "tc.payload", "tc.parse", "tc.check", "prim.hmac256", "prim.sha256"),
+    spec_ops=("tc.msg", "tc.payload", "tc.parse", "tc.check", "tc.domain", "prim.hmac256", "prim.sha256"),
     rule="digest layout: workchains incl. int32 bounds x domains 0..300 bytes x timestamps over int64 x payloads; payloads: "
          "valid / bit-flipped / short / long / upper-case / non-hex / foreign secret x fresh / expired / future / arbitrary "
          "times; proofs: every wallet version with a known code hash (V1R1..V5R1) x random key pairs x honest proof with key "
@@ -15,6 +15,10 @@ PROP = dict(
          "workchain, upper case), state-init without code / data / both, unknown code, split-depth, short data, lockup code, "
          "several roots, not a BOC; Ed25519 verdicts computed with crypto/ed25519 for every candidate key; real-clock "
          "boundary cases (lifetime -1/0/+1 s) and end-to-end flows as direct oracles. "
+         "get-method stub answering 17 failure shapes (executor error, exit codes 2 and 2^32-1, nil / empty stack, null, NaN, "
+         "cell, slice, builder, continuation, tuple, unknown and empty constructor names, int+null, null+int, two ints); "
+         "StaticDomain against ports, sub-domains, case, trailing dot, scheme, Unicode look-alikes and normalisation forms, "
+         "punycode, NUL, empty; "
          "non-trivial = distinct (version, key pair) with its family of proofs",
     trusted_base=[
         "translator TonConnectConsts (harness/cmd/extract, go/ast): the two prefixes and the default lifetimes are re-read from tonconnect/server.go on every run and stated as decide-d obligations against the model",
